@@ -56,6 +56,16 @@ VInit ==
           /\ dt = [y |-> y, mo |-> md[1], d |-> md[2], h |-> h, mi |-> ms[1], s |-> ms[2], us |-> us]
      /\ fmt \in [df : DateFormats, tf : TimeFormats, lang : Langs, iso : BOOLEAN]
      /\ (fmt.iso => fmt.df = "YYYY-MM-DD" /\ fmt.tf = "tt:mm" /\ fmt.lang = "")
+  \* times of day: the sub-second part is a CLASS here (0 = none, 1 = whole microseconds, 2 = finer than a microsecond);
+  \* the replay sweeps concrete values of the class, since which fractions survive is arithmetic and not case structure
+  \/ /\ kind = "tod" /\ num = NoNum /\ js = <<>>
+     /\ \E h \in Hours, ms \in MinSec, us \in {0, 1, 2} : dt = [NoDT EXCEPT !.h = h, !.mi = ms[1], !.s = ms[2], !.us = us]
+     /\ fmt \in [df : {"YYYY-MM-DD"}, tf : TimeFormats, lang : Langs, iso : BOOLEAN]
+     /\ (fmt.iso => fmt.tf = "tt:mm" /\ fmt.lang = "")
+  \/ /\ kind = "date" /\ num = NoNum /\ js = <<>>
+     /\ \E y \in Years, md \in MonthDay : (md = <<2, 29>> => Leap(y)) /\ dt = [NoDT EXCEPT !.y = y, !.mo = md[1], !.d = md[2]]
+     /\ fmt \in [df : DateFormats, tf : {"tt:mm"}, lang : {""}, iso : BOOLEAN]
+     /\ (fmt.iso => fmt.df = "YYYY-MM-DD")
   \/ /\ kind = "json" /\ num = NoNum /\ dt = NoDT /\ fmt = NoFmt
      /\ js \in {<<"scalar", s>> : s \in Scalars}
           \cup {<<"array", a, b>> : a \in Scalars, b \in {"null", "1e2", "\"\""}}
